@@ -11,7 +11,9 @@ RULE = ('argument strings drawn per character from weighted classes (plain, ok-p
         'contains a character outside [A-Za-z0-9_]; distinct by exact text; environment channel: environments of 0-4 names (identifier pool, '
         'a quarter odd names in the W stage) with values from a corner corpus (tildes, colons, equals, dollars, ${cmd}, $in, quotes, blanks, empty), '
         'tilde/colon-rich strings and the weighted classes; command lines as word lists, string-form lines starting two processes, mixtures, via '
-        'cmd= and cmds= of real command()/build_step() edges and local_env for tests')
+        'cmd= and cmds= of real command()/build_step() edges and local_env for tests; system stage: generated projects whose yacc steps '
+        'have MIXED shapes (default two outputs, two named outputs, one named output, in drawn order), the whole argument vector of '
+        'every translator process compared with the declared one (options, --defines= of the second output, source, -o, first output)')
 TRUSTED = ('R model Ninja/NinjaRead.v (lexer, $in/$out escaping) + Ninja/NinjaManifest.v (manifest structure, scoping, lookup order of '
            'command_of) is TRUSTED: no ninja binary exists in this sandbox; written from the Ninja manual / manifest_parser.cc / '
            'lexer.in.cc / eval_env.cc / graph.cc / util.cc; documented deviations are listed at the top of NinjaManifest.v and guarded at run time',
